@@ -421,3 +421,188 @@ Proof.
     + rewrite (reconstruct_gradient_id P s HN) in H. rewrite (upd_Nact_id s HN) in H. rewrite Es in H.
       injection H as <- _. split; [exact Inv|lra].
 Qed.
+
+(** * working-set selection returns valid pairs *)
+Lemma fold_left_inv {A B} (f : A -> B -> A) (I : A -> Prop) (l : list B) : forall a,
+  I a -> (forall a e, In e l -> I a -> I (f a e)) -> I (fold_left f l a).
+Proof.
+  induction l as [|x l IH]; intros a Ha Hs; simpl; [exact Ha|].
+  apply IH; [apply Hs; [left; reflexivity|exact Ha]|].
+  intros a' e He. apply Hs. right; exact He.
+Qed.
+
+Lemma in_firstn_in {A} (l : list A) : forall m x, In x (firstn m l) -> In x l.
+Proof.
+  induction l as [|y l IH]; intros [|m] x H; simpl in *; try contradiction.
+  destruct H as [H|H]; [left; exact H|right; exact (IH m x H)].
+Qed.
+
+Lemma combine_seq_fun {X} (L : list X) : forall n a k x x',
+  In (k, x) (combine (seq a n) L) -> In (k, x') (combine (seq a n) L) -> x = x'.
+Proof.
+  induction L as [|y L IH]; intros [|n] a k x x' H H'; simpl in *; try contradiction.
+  destruct H as [H|H]; destruct H' as [H'|H'].
+  - congruence.
+  - injection H as <- _. apply in_combine_l in H'. apply in_seq in H'. lia.
+  - injection H' as <- _. apply in_combine_l in H. apply in_seq in H. lia.
+  - exact (IH n (S a) k x x' H H').
+Qed.
+
+Lemma view_fun (s : state (F := R)) k x x' : In (k, x) (view s) -> In (k, x') (view s) -> x = x'.
+Proof.
+  unfold view, view_all. intros H H'. apply in_firstn_in in H. apply in_firstn_in in H'.
+  exact (combine_seq_fun _ _ _ _ _ _ H H').
+Qed.
+
+Lemma view_lt (s : state (F := R)) k x : In (k, x) (view s) -> (k < length (sA s))%nat.
+Proof.
+  unfold view, view_all, ntotal. intros H. apply in_firstn_in in H. apply in_combine_l in H. apply in_seq in H. lia.
+Qed.
+
+(* the running maximum of max_violating_pair carries the index of an active position and the value that position has *)
+Definition gm_ok (s : state (F := R)) (m : gidx (F := R)) : Prop :=
+  forall i, snd m = Some i -> exists t a u g, In (i, (t, (a, (u, g)))) (view s) /\ fst m = (if t then - g else g).
+
+Lemma mvp_ok inf (s : state (F := R)) : gm_ok s (fst (mvp oR inf s)).
+Proof.
+  unfold mvp.
+  apply (fold_left_inv _ (fun acc => gm_ok s (fst acc))).
+  - intros i H. discriminate.
+  - intros [m1 m2] [i [t [a [u gi]]]] He Hm. cbn [fst] in *.
+    destruct t; cbn [fst].
+    + match goal with |- context [if ?c then _ else _] => destruct c end; [|exact Hm].
+      intros i' E. injection E as <-. exists true, a, u, gi. split; [exact He|reflexivity].
+    + match goal with |- context [if ?c then _ else _] => destruct c end; [|exact Hm].
+      intros i' E. injection E as <-. exists false, a, u, gi. split; [exact He|reflexivity].
+Qed.
+
+Lemma select_std_valid_l : forall inf tiny n (P : problem (F := R)) s i j,
+  length (sA s) = n -> select_std oR inf tiny P s = Some (i, j) -> valid_pair n (i, j).
+Proof.
+  intros inf tiny n P s i j LA H. unfold select_std in H.
+  pose proof (mvp_ok inf s) as Hm.
+  destruct (mvp oR inf s) as [gm1 gm2]. cbn [fst] in Hm.
+  destruct (ltb oR (add oR (fst gm1) (fst gm2)) (pEps P)); [discriminate|].
+  destruct (snd gm1) as [i0|] eqn:E1; [|discriminate].
+  match type of H with match snd ?b with _ => _ end = _ => set (best := b) in * end.
+  assert (Hb : forall j0, snd best = Some j0 -> exists t a u g, In (j0, (t, (a, (u, g)))) (view s) /\
+            (if t then 0 < fst gm1 + g else 0 < fst gm1 - g)).
+  { unfold best.
+    apply (fold_left_inv _ (fun b : gidx => forall j0, snd b = Some j0 -> exists t a u g, In (j0, (t, (a, (u, g)))) (view s) /\
+            (if t then 0 < fst gm1 + g else 0 < fst gm1 - g))).
+    - intros j0 E. discriminate.
+    - intros b [[j0 [t [a [u gj]]]] dij] He Hb. apply in_combine_l in He.
+      destruct t.
+      + destruct (negb (is_lower oR a)); [|exact Hb].
+        destruct (gtb oR (add oR (fst gm1) gj) (zero oR)) eqn:Eg; [|exact Hb].
+        match goal with |- context [if ?c then _ else _] => destruct c end; [|exact Hb].
+        intros j1 E. injection E as <-. exists true, a, u, gj. split; [exact He|].
+        unfold gtb in Eg. apply Rltb_true in Eg. exact Eg.
+      + destruct (negb (is_upper oR a u)); [|exact Hb].
+        destruct (gtb oR (sub oR (fst gm1) gj) (zero oR)) eqn:Eg; [|exact Hb].
+        match goal with |- context [if ?c then _ else _] => destruct c end; [|exact Hb].
+        intros j1 E. injection E as <-. exists false, a, u, gj. split; [exact He|].
+        unfold gtb in Eg. apply Rltb_true in Eg. exact Eg. }
+  destruct (snd best) as [j0|] eqn:E2; [|discriminate].
+  injection H as <- <-.
+  destruct (Hm i0 E1) as [t [a [u [g [Hi Hv]]]]].
+  destruct (Hb j0 eq_refl) as [t' [a' [u' [g' [Hj Hg]]]]].
+  unfold valid_pair; cbn [fst snd]. split; [|split].
+  - intros ->. pose proof (view_fun s _ _ _ Hi Hj) as E. injection E as <- _ _ <-.
+    rewrite Hv in Hg. destruct t; lra.
+  - rewrite <- LA. exact (view_lt s _ _ Hi).
+  - rewrite <- LA. exact (view_lt s _ _ Hj).
+Qed.
+
+(* max_violating_pair_nu: the maxima of the two classes carry a position of their own class *)
+Definition gm_ok_cls (s : state (F := R)) (b : bool) (m : gidx (F := R)) : Prop :=
+  forall i, snd m = Some i -> exists a u g, In (i, (b, (a, (u, g)))) (view s) /\ fst m = (if b then - g else g).
+
+Lemma mvp_nu_ok inf (s : state (F := R)) :
+  gm_ok_cls s true (fst (fst (mvp_nu oR inf s))) /\ gm_ok_cls s false (snd (fst (mvp_nu oR inf s))).
+Proof.
+  unfold mvp_nu.
+  apply (fold_left_inv _ (fun acc : (gidx * gidx) * (gidx * gidx) =>
+           gm_ok_cls s true (fst (fst acc)) /\ gm_ok_cls s false (snd (fst acc)))).
+  - split; intros i H; discriminate.
+  - intros [[m1 m2] [m3 m4]] [i [t [a [u gi]]]] He [H1 H2]. cbn [fst snd] in *.
+    destruct t; cbn [fst snd]; (split; [|try exact H2]); try exact H1.
+    + match goal with |- context [if ?c then _ else _] => destruct c end; [|exact H1].
+      intros i' E. injection E as <-. exists a, u, gi. split; [exact He|reflexivity].
+    + match goal with |- context [if ?c then _ else _] => destruct c end; [|exact H2].
+      intros i' E. injection E as <-. exists a, u, gi. split; [exact He|reflexivity].
+Qed.
+
+Lemma select_nu_valid_l : forall inf tiny n (P : problem (F := R)) s i j,
+  length (sA s) = n -> select_nu oR inf tiny P s = Some (i, j) -> valid_pair n (i, j).
+Proof.
+  intros inf tiny n P s i j LA H. unfold select_nu in H.
+  pose proof (mvp_nu_ok inf s) as Hm.
+  destruct (mvp_nu oR inf s) as [[gp1 gn1] [gp2 gn2]]. cbn [fst snd] in Hm. destruct Hm as [Hp Hn].
+  match type of H with (if _ then _ else match snd ?b with _ => _ end) = _ => set (best := b) in * end.
+  assert (Hb : forall j0, snd best = Some j0 -> exists t a u g, In (j0, (t, (a, (u, g)))) (view s) /\
+            (if t then 0 < fst gp1 + g else 0 < fst gn1 - g)).
+  { unfold best.
+    apply (fold_left_inv _ (fun b : gidx => forall j0, snd b = Some j0 -> exists t a u g, In (j0, (t, (a, (u, g)))) (view s) /\
+            (if t then 0 < fst gp1 + g else 0 < fst gn1 - g))).
+    - intros j0 E. discriminate.
+    - intros b [j0 [t [a [u gj]]]] He Hb.
+      destruct t.
+      + destruct (negb (is_lower oR a)); [|exact Hb].
+        destruct (gtb oR (add oR (fst gp1) gj) (zero oR)) eqn:Eg; [|exact Hb].
+        destruct (snd gp1) as [ip|]; [|exact Hb].
+        match goal with |- context [if ?c then _ else _] => destruct c end; [|exact Hb].
+        intros j1 E. injection E as <-. exists true, a, u, gj. split; [exact He|].
+        unfold gtb in Eg. apply Rltb_true in Eg. exact Eg.
+      + destruct (negb (is_upper oR a u)); [|exact Hb].
+        destruct (gtb oR (sub oR (fst gn1) gj) (zero oR)) eqn:Eg; [|exact Hb].
+        destruct (snd gn1) as [ineg|]; [|exact Hb].
+        match goal with |- context [if ?c then _ else _] => destruct c end; [|exact Hb].
+        intros j1 E. injection E as <-. exists false, a, u, gj. split; [exact He|].
+        unfold gtb in Eg. apply Rltb_true in Eg. exact Eg. }
+  match type of H with (if ?c then _ else _) = _ => destruct c end; [discriminate|].
+  destruct (snd best) as [j0|] eqn:E2; [|discriminate].
+  destruct (Hb j0 eq_refl) as [t' [a' [u' [g' [Hj Hg]]]]].
+  assert (Lj : (j0 < n)%nat) by (rewrite <- LA; exact (view_lt s _ _ Hj)).
+  destruct (nth j0 (sT s) true).
+  - destruct (snd gp1) as [i0|] eqn:E1; [|discriminate]. injection H as <- <-.
+    destruct (Hp i0 E1) as [a [u [g [Hi Hv]]]].
+    unfold valid_pair; cbn [fst snd]. split; [|split; [rewrite <- LA; exact (view_lt s _ _ Hi)|exact Lj]].
+    intros ->. pose proof (view_fun s _ _ _ Hi Hj) as E. injection E as <- _ _ <-.
+    rewrite Hv in Hg. lra.
+  - destruct (snd gn1) as [i0|] eqn:E1; [|discriminate]. injection H as <- <-.
+    destruct (Hn i0 E1) as [a [u [g [Hi Hv]]]].
+    unfold valid_pair; cbn [fst snd]. split; [|split; [rewrite <- LA; exact (view_lt s _ _ Hi)|exact Lj]].
+    intros ->. pose proof (view_fun s _ _ _ Hi Hj) as E. injection E as <- _ _ <-.
+    rewrite Hv in Hg. lra.
+Qed.
+
+Lemma select_valid_l : forall inf tiny n (P : problem (F := R)) s i j,
+  length (sA s) = n -> select oR inf tiny P s = Some (i, j) -> valid_pair n (i, j).
+Proof.
+  intros inf tiny n P s i j LA H. unfold select in H. destruct (pNu P).
+  - exact (select_nu_valid_l inf tiny n P s i j LA H).
+  - exact (select_std_valid_l inf tiny n P s i j LA H).
+Qed.
+
+Lemma select_valid_inv_l : forall inf tiny n (P : problem (F := R)) s i j,
+  smo_inv n P s -> select oR inf tiny P s = Some (i, j) -> valid_pair n (i, j).
+Proof. intros inf tiny n P s i j Inv. exact (select_valid_l inf tiny n P s i j (proj1 Inv)). Qed.
+
+(** * the main loop without shrinking, with no hypothesis on the selection rule *)
+Lemma smo_loop_descent_full_l : forall inf tiny n (P : problem (F := R)) fuel s iter c s' it,
+  0 < tiny -> pShrinking P = false -> smo_inv n P s ->
+  smo_loop oR inf tiny fuel P s iter c = Done s' it ->
+  smo_inv n P s' /\ dual_obj P s' <= dual_obj P s.
+Proof.
+  intros inf tiny n P fuel s iter c s' it Htiny Hsh Inv H.
+  apply (smo_loop_descent_l inf tiny n P fuel s iter c s' it Htiny Hsh Inv); [|exact H].
+  intros st i j Inv' Hs. apply (select_valid_l inf tiny n P st i j); [|exact Hs].
+  destruct Inv' as [LA _]. exact LA.
+Qed.
+
+(* non-vacuity: the start state of the two-point problem satisfies the hypotheses of both lemmas (exS_smo_inv), so
+   whatever pair its selection returns is valid *)
+Example exS_select_valid : forall inf tiny i j,
+  select oR inf tiny exP exS = Some (i, j) -> valid_pair 2 (i, j).
+Proof. intros inf tiny i j H. exact (select_valid_l inf tiny 2%nat exP exS i j eq_refl H). Qed.
